@@ -6,7 +6,7 @@ Validation rules defined in `the specification`_.
 """
 
 from collections import defaultdict
-from typing import Dict, List, Set, Tuple, cast
+from typing import Any, Dict, List, Set, Tuple, cast
 
 from ..._string_utils import infer_suggestions, quoted_options_list
 from ..._utils import OrderedDict, deduplicate
@@ -860,12 +860,34 @@ class VariablesInAllowedPositionChecker(VariablesCollector):
     """
     Variables passed to field arguments conform to type """
 
+    def __init__(self, schema, type_info):
+        super(VariablesInAllowedPositionChecker, self).__init__(
+            schema, type_info
+        )
+        # The base collector only remembers the last usage of every variable
+        # while every single usage must be checked here.
+        self._op_usages = defaultdict(list)  # type: Dict[str, List[Any]]
+        self._fragment_usages = defaultdict(list)  # type: Dict[str, List[Any]]
+
+    def enter_variable(self, node):
+        super(VariablesInAllowedPositionChecker, self).enter_variable(node)
+        if self._in_var_def:
+            return
+
+        usage = (
+            node.name.value,
+            (node, self.type_info.input_type, self.type_info.input_value_def),
+        )
+        if self._op is not None:
+            self._op_usages[self._op].append(usage)
+        elif self._fragment is not None:
+            self._fragment_usages[self._fragment].append(usage)
+
     def iter_op_variables(self, op):
-        for usage in self._op_variables[op].items():
+        for usage in self._op_usages[op]:
             yield usage
-        for fragment in self._op_fragments[op]:
-            frament_vars = self._fragment_variables[fragment].items()
-            for usage in frament_vars:
+        for fragment in deduplicate(self._op_fragments[op]):
+            for usage in self._fragment_usages[fragment]:
                 yield usage
 
     def leave_document(self, node):
